@@ -80,7 +80,20 @@ func genCase(r *fw.Rand) fw.Case {
 			if open && r.Chance(0.5) {
 				add(fmt.Sprintf("setmax %d", []int{64, 100, 200, 400, 1024}[r.Intn(5)]))
 			} else if crashes {
-				add("crash")
+				if r.Chance(0.5) {
+					// the crash tears the flush of one more, never acknowledged block: k bytes
+					// of it reach the file (k = 7 is left out: whether the footer survives then
+					// depends on the byte values)
+					id++
+					l := 1 + r.Intn(maxSeg/2)
+					if l < len(fmt.Sprint(id)) {
+						l = len(fmt.Sprint(id))
+					}
+					k := []int{1 + r.Intn(6), 8, 8 + r.Intn(l+1), 8 + l, 8 + l + r.Intn(8)}[r.Intn(5)]
+					add(fmt.Sprintf("crash torn %d %d %d", id, l, k))
+				} else {
+					add("crash")
+				}
 				open = true
 			}
 		case 15:
@@ -110,7 +123,11 @@ func genCase(r *fw.Rand) fw.Case {
 	// buffered path is written by the next appender (one is always waiting when the path is
 	// taken), so the drain starts with one ordinary append of a sentinel block.
 	ops = append(ops, "dappend 9999 4 0")
-	for i := 0; i < id+5; i++ {
+	rounds := id + 5
+	if crashes {
+		rounds = 3*id + 8 // a torn crash delivers a segment again
+	}
+	for i := 0; i < rounds; i++ {
 		ops = append(ops, "dcurrent", "dadvance")
 	}
 	ops = append(ops, "dempty", "usage")
@@ -560,6 +577,10 @@ func (Prop) Oracle(c fw.Case, out []string) fw.Verdict {
 	const lostSig = "a block accepted under the buffered path is lost by a crash"
 	// a crash image in which the flush of one more block was torn: the blocks pending then
 	tornPending := map[int]bool{}
+	afterEOF := false            // the op before was a Current that found nothing
+	redeliver := false           // blocks delivered before may come again
+	delivered := map[int]bool{}  // ids delivered so far
+	tornExtra := map[int]bool{}  // never acknowledged, but possibly complete in the file
 	allTorn := func(ids []int) bool {
 		if len(ids) == 0 {
 			return false
@@ -571,7 +592,8 @@ func (Prop) Oracle(c fw.Case, out []string) fw.Verdict {
 		}
 		return true
 	}
-	const tornSig = "a flush torn by a crash costs blocks that had been acknowledged and flushed before"
+	tornSig := "a flush torn by a crash costs blocks that had been acknowledged and flushed before"
+	const tornSig8 = "a flush torn right after the new record's length costs blocks that had been acknowledged and flushed before"
 	purged := false
 	lastCurrent := -1
 	open, sentinel := true, false
@@ -585,15 +607,28 @@ func (Prop) Oracle(c fw.Case, out []string) fw.Verdict {
 		if strings.HasPrefix(o, "panic") || strings.HasPrefix(o, "err:") {
 			return fw.Verdict{OK: false, Why: fmt.Sprintf("op %d %q => %s", i, op, o), Signature: strings.SplitN(o, ":", 2)[0] + " in " + f[0]}
 		}
+		if f[0] != "current" && f[0] != "advance" && f[0] != "empty" && f[0] != "usage" {
+			afterEOF = false
+		}
 		switch f[0] {
 		case "reset":
 			pending, purged, lastCurrent, open, sentinel = nil, false, -1, true, false
 			unflushed, maybeLost, tornPending = nil, map[int]bool{}, map[int]bool{}
+			redeliver, delivered, tornExtra = false, map[int]bool{}, map[int]bool{}
 		case "crash":
 			if len(f) == 5 && f[1] == "torn" {
 				for _, id := range pending {
 					tornPending[id] = true
 				}
+				// with the head offset gone the restart delivers the newest segment again
+				// from its first record (at least once), and the torn block too if all of
+				// it had reached the file
+				redeliver = true
+				if f[4] == "8" {
+					tornSig = tornSig8 // the remainder that can look like a valid footer
+				}
+				tid, _ := strconv.Atoi(f[2])
+				tornExtra[tid] = true
 			}
 			for _, id := range unflushed {
 				maybeLost[id] = true
@@ -628,6 +663,7 @@ func (Prop) Oracle(c fw.Case, out []string) fw.Verdict {
 			lastCurrent = -1
 		case "current":
 			lastCurrent = -1
+			afterEOF = o == "eof" // an Advance right after this only moves on from an exhausted head segment
 			if strings.HasPrefix(o, "block ") {
 				id, _ := strconv.Atoi(strings.Fields(o)[1])
 				// must be the oldest pending block (after a purge: some pending block, order kept)
@@ -637,6 +673,10 @@ func (Prop) Oracle(c fw.Case, out []string) fw.Verdict {
 						idx = k
 						break
 					}
+				}
+				if idx < 0 && (redeliver && delivered[id] || tornExtra[id]) {
+					lastCurrent = -1 // a block delivered again, or the torn one: nothing pending changes
+					continue
 				}
 				if idx < 0 {
 					return fw.Verdict{OK: false, Why: fmt.Sprintf("op %d: current returned block %d which is not pending (pending %v)", i, id, pending), Signature: "delivered block not pending (duplicate or phantom)"}
@@ -687,7 +727,22 @@ func (Prop) Oracle(c fw.Case, out []string) fw.Verdict {
 				pending = append(pending, id)
 			}
 		case "advance":
+			if o == "ok" && lastCurrent < 0 && !afterEOF && len(pending) > 0 && open && !purged && !redeliver {
+				// Advance without Current: the consumer discards the oldest block unread (the
+				// queue's contract; the node processor never does it) — unless that block
+				// is still in a write buffer, which Advance does not see
+				inBuf := false
+				for _, id := range unflushed {
+					if id == pending[0] {
+						inBuf = true
+					}
+				}
+				if !inBuf {
+					pending = pending[1:]
+				}
+			}
 			if o == "ok" && lastCurrent >= 0 && len(pending) > 0 && pending[0] == lastCurrent {
+				delivered[lastCurrent] = true
 				pending = pending[1:]
 			}
 			lastCurrent = -1
@@ -701,6 +756,12 @@ func (Prop) Oracle(c fw.Case, out []string) fw.Verdict {
 				continue // after an age purge the oracle no longer knows exactly what is pending; a closed queue holds nothing open
 			}
 			want := fmt.Sprint(len(pending) == 0)
+			if o == "false" && want == "true" && redeliver {
+				continue // blocks delivered before the torn crash are pending again
+			}
+			if o == "false" && want == "true" && len(tornExtra) > 0 {
+				continue // the torn block reached the file completely and is pending although never acknowledged
+			}
 			if o != want && o == "true" && allTorn(pending) {
 				return fw.Verdict{OK: false, Why: fmt.Sprintf("op %d: Empty() = true, but blocks %v had been accepted and flushed before the crash that tore the flush of a later, never acknowledged block; they were never delivered", i, pending), Signature: tornSig}
 			}
